@@ -40,3 +40,8 @@ def match(pid, what, inp):
 @predicate('KF-C08-inline-zero')
 def _kf_c08_inline_zero(what, inp):
     return isinstance(inp, dict) and inp.get('irregular') and 0 in inp.get('ilines', [])
+
+
+@predicate('KF-C08-segyio-structured')
+def _kf_c08_segyio_structured(what, inp):
+    return isinstance(inp, dict) and inp.get('irregular') and inp.get('segyio_reports_structured')
